@@ -624,6 +624,44 @@ h_proof! { #[kani::unwind(4)] fn c12_window_reset() { c12_window(3) } }
 
 // @harness props=C12 tier=quick reach=off timeout=900 mem=24 bound="schedule W1.C.W for C = SET_VRING_ENABLE(0): worker holds a stale epoll event while the ring is disabled, then re-enabled (2 Mutex rings, one worker)" stubs="Epoll::ctl (ghost interest lists), EventConsumer::consume, EventNotifier::notify, close/OwnedFd::drop"
 h_proof! { #[kani::unwind(4)] fn c12_stale_disable() { c12_stale(1) } }
+/// stop . SET_VRING_ENABLE(0) while stopped . restart . kick: the disabling message was answered, so the kick
+/// raised after the restart must NOT reach the handler until SET_VRING_ENABLE(1) - and then exactly once
+fn c12_stop_disable_restart() {
+    let (mut h, _ids) = mk_handler_m(2, &[0b11]);
+    let epfd = ev::EPFD0;
+    h.acked_features = PF;
+    let fd = vgm::FD0;
+    let r = h.set_vring_kick(0, Some(file(fd)));
+    std::mem::forget(r);
+    let r = h.set_vring_enable(0, true);
+    std::mem::forget(r);
+    c12_control(&mut h, 2); // GET_VRING_BASE: stopped, still enabled
+    let r = h.set_vring_enable(0, false); // disabled while stopped
+    assert!(r.is_ok());
+    std::mem::forget(r);
+    let calls_at_reply = vgm::vg().he_calls;
+    let fd2 = vgm::FD0 + 1;
+    let r = h.set_vring_kick(0, Some(file(fd2))); // restart
+    assert!(r.is_ok());
+    std::mem::forget(r);
+    vgm::kick(fd2);
+    if vgm::registered(epfd, fd2).is_some() {
+        let res = ev::worker_handle_event(&h.handlers[0], 0);
+        std::mem::forget(res);
+    }
+    assert!(vgm::vg().he_calls == calls_at_reply, "C12: event handler entered for a ring after the reply to the message that disabled / stopped it");
+    assert!(vgm::pending(fd2), "C12: a wake-up was consumed without being processed (kick lost while the ring is disabled)");
+    let r = h.set_vring_enable(0, true);
+    assert!(r.is_ok());
+    std::mem::forget(r);
+    assert!(vgm::registered(epfd, fd2) == Some(0), "C12: re-enabled ring is watched again");
+    let res = ev::worker_handle_event(&h.handlers[0], 0);
+    assert!(res == Some(false));
+    assert!(vgm::vg().he_calls == calls_at_reply + 1 && vgm::vg().he_ring_active, "C12: the retained kick is processed once the ring is enabled again");
+    kani::cover!(vgm::vg().he_calls == calls_at_reply + 1, "witness: the schedule runs to its end");
+}
+// @harness props=C12,C11 tier=quick reach=off timeout=900 mem=24 bound="stop/restart scenario with the ring disabled while it is stopped: GET_VRING_BASE . SET_VRING_ENABLE(0) . SET_VRING_KICK(new descriptor) . guest kick . worker . SET_VRING_ENABLE(1) . worker (2 Mutex rings, one worker)" stubs="Epoll::ctl (ghost interest lists), EventConsumer::consume, EventNotifier::notify, close/OwnedFd::drop"
+h_proof! { #[kani::unwind(4)] fn c12_stop_disable_restart_h() { c12_stop_disable_restart() } }
 // @harness props=C12 tier=quick reach=off timeout=900 mem=24 bound="schedule W1.C.W for C = GET_VRING_BASE: worker holds a stale epoll event while the ring is stopped; then restart with a new kick descriptor and one kick" stubs="Epoll::ctl (ghost interest lists), EventConsumer::consume, EventNotifier::notify, close/OwnedFd::drop"
 h_proof! { #[kani::unwind(4)] fn c12_stale_get_vring_base() { c12_stale(2) } }
 // @harness props=C12 tier=quick reach=off timeout=900 mem=24 bound="schedule W1.C.W for C = RESET_DEVICE: worker holds a stale epoll event while all rings are disabled, then re-enabled" stubs="Epoll::ctl (ghost interest lists), EventConsumer::consume, EventNotifier::notify, close/OwnedFd::drop"
@@ -702,12 +740,14 @@ h_proof! { #[kani::unwind(6)] fn c14_u_vring_base() {
     let idx: u32 = kani::any();
     let in_range = (idx as usize) < 1;
     let base: u32 = kani::any();
+    let used_before = h.vrings[0].get_ref().get_queue().next_used();
     let r = h.set_vring_base(idx, base);
     assert!(r.is_ok() == in_range, "C14: per-ring message accepted iff the index is in range");
     std::mem::forget(r);
     if in_range && base <= 0xffff {
         assert!(h.vrings[idx as usize].queue_next_avail() == base as u16, "C14: next-available index = base");
     }
+    assert!(h.vrings[0].get_ref().get_queue().next_used() == used_before, "C14: SET_VRING_BASE sets the next-available index only; next-used comes from the used ring in guest memory (SET_VRING_ADDR)");
     let r = h.get_vring_base(idx);
     kani::cover!(r.is_ok());
     match &r {
